@@ -445,11 +445,18 @@ def r13_5(ctx):
             if any(x.get("k") == "MethodCall" and x["method"] == "fill" for x in walk(n["then"])):
                 blocks.append(n)
     if len(blocks) >= 2:
-        texts = {expr_str(b["then"], names={}) for b in blocks}
+        def ident_arm(bl):
+            for m in walk(bl["then"]):
+                if m.get("k") == "Match":
+                    for a in m["arms"]:
+                        if pat_str(a["pat"]).startswith("Ident("):
+                            return expr_str(m["scrut"], names={}) + " :: " + pat_str(a["pat"]) + (" if " + expr_str(a["guard"], names={}) if a.get("guard") is not None else "") + " => " + expr_str(a["body"], names={})
+            return expr_str(bl["then"], names={})
+        texts = {ident_arm(b) for b in blocks}
         r.ob("expression and spread children mark bound identifiers identically", len(texts) == 1, C.mloc(ch, blocks[0]),
              "%d optimize blocks with fill(), %d distinct shape(s)" % (len(blocks), len(texts)))
         t = next(iter(texts))
-        ok = "has_mark" in t and "unresolved_mark" in t and "Dynamic" in t and "!" in t
+        ok = "has_mark" in t and "unresolved_mark" in t and "Dynamic" in t and "!" in t and ".fill(" in t
         r.ob("fill(Dynamic) happens for identifiers that are not unresolved", ok, C.mloc(ch, blocks[0]), t[:200])
     elif len(blocks) == 1:
         r.ob("expression and spread children mark bound identifiers identically", None, C.mloc(ch, blocks[0]), "one shared block (helper extracted?)")
